@@ -10,6 +10,10 @@
 /*                                                                           */
 /*****************************************************************************/
 
+#ifndef _POSIX_C_SOURCE
+#    define _POSIX_C_SOURCE 200809L /* lstat() */
+#endif
+
 #include "stdinc.h"
 
 #include "stdhandl.h"
@@ -34,6 +38,9 @@
 #    else
 #        define S_ISREG(m) (((m) & S_IFMT) == S_IFREG)
 #    endif
+#endif
+#ifndef S_ISLNK
+#    define lstat stat /* no symbolic links on this platform */
 #endif
 
 TRedirected Redirected;
@@ -70,6 +77,18 @@ void CloseIfOpen(FILE** ppFile) {
             fclose(*ppFile);
         }
         *ppFile = NULL;
+    }
+}
+
+/* Remove an output file (after an error, before another pass), but leave
+   anything else the user named as output (device node, FIFO, symbolic link)
+   alone */
+
+void UnlinkIfRegular(char const* pPath) {
+    struct stat st;
+
+    if (!lstat(pPath, &st) && S_ISREG(st.st_mode)) {
+        unlink(pPath);
     }
 }
 
